@@ -4,6 +4,7 @@
   `buildD` (`Basic/Desc.lean`).
 -/
 import BufrModel.Basic.Desc
+import BufrModel.Basic.Template
 import BufrModel.Gen.PyTables
 namespace Bufr.BuildSrc
 open PyGen.tables Py.Small
@@ -196,5 +197,98 @@ theorem loop_eq (T : Tables) (depth : Nat) (hL : Loads T depth) :
             cases buildD T (depth + 1) rest with
             | error e => rfl
             | ok tl => simp [outcome, reprL, envOf]
+
+/-! ### `BufrTemplate.original_descriptor_ids` -/
+
+/-- the `id` attribute of a Table B element -/
+def eid (e : Elem) : Int := (e.id : Int)
+
+theorem idWith_repr (d : Desc) : Descr.idWith eid (reprD d) = (d.id : Int) := by
+  cases d <;> simp [reprD, Descr.idWith, Descr.id, Desc.id, eid]
+
+open PyGen.descriptors in
+/-- the work-queue loop of the generated `original_descriptor_ids` on the object tree of a queue of the model -/
+theorem walk_eq : ∀ (fuel : Nat) (q : List Desc) (ret : List Int), sizeL q < fuel →
+    BufrTemplate.original_descriptor_ids.loop eid fuel (reprL q) ret = .ok (ret ++ (originalIdsQ q).map Int.ofNat) := by
+  intro fuel
+  induction fuel with
+  | zero => intro q ret h; omega
+  | succ fuel ih =>
+    intro q ret h
+    cases q with
+    | nil => simp [reprL, BufrTemplate.original_descriptor_ids.loop, originalIdsQ]
+    | cons d rest =>
+      have hr : sizeL rest < fuel := by
+        have : 1 ≤ d.size := by cases d <;> simp [Desc.size] <;> omega
+        simp only [sizeL] at h; omega
+      cases d with
+      | elem e =>
+        rw [originalIdsQ]
+        simp [reprL, reprD, BufrTemplate.original_descriptor_ids.loop, Descr.idWith, Descr.isReplication, eid,
+          bind, Except.bind, pure, Except.pure, ih rest _ hr]
+      | undefElem i =>
+        rw [originalIdsQ]
+        simp [reprL, reprD, BufrTemplate.original_descriptor_ids.loop, Descr.idWith, Descr.id, Descr.isReplication,
+          bind, Except.bind, pure, Except.pure, ih rest _ hr]
+      | undefSeq i =>
+        rw [originalIdsQ]
+        simp [reprL, reprD, BufrTemplate.original_descriptor_ids.loop, Descr.idWith, Descr.id, Descr.isReplication,
+          bind, Except.bind, pure, Except.pure, ih rest _ hr]
+      | op i =>
+        rw [originalIdsQ]
+        simp [reprL, reprD, BufrTemplate.original_descriptor_ids.loop, Descr.idWith, Descr.id, Descr.isReplication,
+          bind, Except.bind, pure, Except.pure, ih rest _ hr]
+      | seq i ms =>
+        rw [originalIdsQ]
+        simp [reprL, reprD, BufrTemplate.original_descriptor_ids.loop, Descr.idWith, Descr.id, Descr.isReplication,
+          bind, Except.bind, pure, Except.pure, ih rest _ hr]
+      | fixedRep i ms =>
+        have hq : sizeL (ms ++ rest) < fuel := by
+          simp only [sizeL, Desc.size] at h; rw [sizeL_append]; omega
+        rw [originalIdsQ]
+        simp [reprL, reprD, BufrTemplate.original_descriptor_ids.loop, Descr.idWith, Descr.id, Descr.isReplication,
+          Descr.isDelayed, Descr.membersOf, bind, Except.bind, pure, Except.pure, ← reprL_append, ih (ms ++ rest) _ hq]
+      | delayedRep i f ms =>
+        have hq : sizeL (ms ++ rest) < fuel := by
+          simp only [sizeL, Desc.size] at h; rw [sizeL_append]; omega
+        rw [originalIdsQ]
+        simp [reprL, reprD, BufrTemplate.original_descriptor_ids.loop, Descr.idWith, Descr.id, Descr.isReplication,
+          Descr.isDelayed, Descr.membersOf, Descr.factorId, bind, Except.bind, pure, Except.pure,
+          ← reprL_append, ih (ms ++ rest) _ hq]
+        have := idWith_repr f
+        simpa [Descr.idWith, Descr.id] using this
+
+/-! ### the representation is injective: equal object trees come from equal trees of the model -/
+
+mutual
+theorem reprD_inj : ∀ (a b : Desc), reprD a = reprD b → a = b
+  | .elem e, b, h => by cases b <;> simp_all [reprD]
+  | .undefElem i, b, h => by cases b <;> simp_all [reprD] <;> omega
+  | .undefSeq i, b, h => by cases b <;> simp_all [reprD] <;> omega
+  | .op i, b, h => by cases b <;> simp_all [reprD] <;> omega
+  | .seq i ms, b, h => by
+    cases b <;> simp [reprD] at h
+    rename_i j ms'
+    have e1 : i = j := by omega
+    rw [e1, reprL_inj ms ms' h.2]
+  | .fixedRep i ms, b, h => by
+    cases b <;> simp [reprD] at h
+    rename_i j ms'
+    have e1 : i = j := by omega
+    rw [e1, reprL_inj ms ms' h.2]
+  | .delayedRep i f ms, b, h => by
+    cases b <;> simp [reprD] at h
+    rename_i j f' ms'
+    have e1 : i = j := by omega
+    rw [e1, reprD_inj f f' h.2.1, reprL_inj ms ms' h.2.2]
+theorem reprL_inj : ∀ (a b : List Desc), reprL a = reprL b → a = b
+  | [], b, h => by cases b <;> simp_all [reprL]
+  | d :: ds, b, h => by
+    cases b with
+    | nil => simp [reprL] at h
+    | cons e es =>
+      simp only [reprL, List.cons.injEq] at h
+      rw [reprD_inj d e h.1, reprL_inj ds es h.2]
+end
 
 end Bufr.BuildSrc
